@@ -472,7 +472,49 @@ def check_big(case):
     return dict(nt=nt, classes=["big-" + case["shape"], f"proto{case['proto']}", "big-nt" if nt else "big-small"])
 
 
+def fresh_job(case, kf_open):
+    """-> (job for eglib.fresh, expected canonical form, expected battery)"""
+    from edgegraph.structure import Vertex
+
+    P = prepare(case, kf_open)
+    w, order = P["w"], P["order"]
+    vs_pos, ls_pos = positions(order, w.vs), positions(order, w.ls)
+    Vertex.NEIGHBOR_CACHING = False
+    bat = battery.evaluate([order[p] for p in vs_pos], [order[p] for p in ls_pos])
+    job = dict(blob=P["blob"], flag=case["flag_load"], loader=case["loader"], vs_pos=vs_pos, ls_pos=ls_pos, want=["c10"])
+    return job, P["form"], bat
+
+
+def judge_fresh(r, form, bat):
+    """-> None | (kind, detail)"""
+    if r["error"]:
+        return "fresh-interpreter-raised:" + r["error"].split(":")[0], r["error"]
+    d = canon.first_form_difference(form, r["canon"])
+    if d:
+        return "fresh-copy-not-isomorphic", d
+    d = battery.first_difference(bat, r["battery"])
+    if d:
+        return "fresh-copy-answers-differ", d
+    if r["usable"] != "empty" and not all(r["usable"].values()):
+        return "fresh-copy-not-usable", str(r["usable"])
+    return None
+
+
+def check_fresh(case):
+    """Replay form of the extra phase for one case: load the blob in a fresh interpreter."""
+    from eglib import fresh
+
+    job, form, bat = fresh_job(case, KF1 in open_keys(ID))
+    r = fresh.run_jobs([job])[0]
+    bad = judge_fresh(r, form, bat)
+    if bad:
+        raise Violation(bad[0], bad[1])
+    return dict(nt=len(r["canon"][1]) >= 4, classes=["fresh-interpreter"])
+
+
 def check_case(case):
+    if case.get("fresh"):
+        return check_fresh(case["case"])
     if case["t"] == "big":
         return check_big(case)
     return check_world(case)
@@ -527,20 +569,14 @@ def extra_phase(tier, seed, deadline):
     for case in cases:
         driver.reset_globals()
         try:
-            P = prepare(case, kf_open)
+            job, form, bat = fresh_job(case, kf_open)
         except Violation as v:
             failures.setdefault(v.kind, (case, v.detail))
             continue
         finally:
             driver.reset_globals()
-        w, order = P["w"], P["order"]
-        vs_pos, ls_pos = positions(order, w.vs), positions(order, w.ls)
-        from edgegraph.structure import Vertex
-
-        Vertex.NEIGHBOR_CACHING = False
-        bat = battery.evaluate([order[p] for p in vs_pos], [order[p] for p in ls_pos])
-        jobs.append(dict(blob=P["blob"], flag=case["flag_load"], loader=case["loader"], vs_pos=vs_pos, ls_pos=ls_pos))
-        expect.append((P["form"], bat))
+        jobs.append(job)
+        expect.append((form, bat))
         kept.append(case)
     evaluations = 0
     nt = set()
@@ -549,29 +585,17 @@ def extra_phase(tier, seed, deadline):
         if time.time() > deadline + 120:
             break
         try:
-            res = fresh.run_jobs([dict(j, want=["c10"]) for j in jobs[lo:lo + 250]])
+            res = fresh.run_jobs(jobs[lo:lo + 250])
         except Exception as e:  # noqa
             errors.append(f"fresh interpreter batch failed: {e}")
             break
         for k, r in enumerate(res):
             case = kept[lo + k]
             evaluations += 1
-            wrap = {"_noreplay": True, "fresh": True, "case": case}
-            if r["error"]:
-                failures.setdefault("fresh-interpreter-raised:" + r["error"].split(":")[0], (wrap, r["error"]))
-                continue
-            d = canon.first_form_difference(expect[lo + k][0], r["canon"])
-            if d:
-                failures.setdefault("fresh-copy-not-isomorphic", (wrap, d))
-                continue
-            d = battery.first_difference(expect[lo + k][1], r["battery"])
-            if d:
-                failures.setdefault("fresh-copy-answers-differ", (wrap, d))
-                continue
-            if r["usable"] != "empty" and not all(r["usable"].values()):
-                failures.setdefault("fresh-copy-not-usable", (wrap, str(r["usable"])))
-                continue
-            if len(r["canon"][1]) >= 4:
+            bad = judge_fresh(r, *expect[lo + k])
+            if bad:
+                failures.setdefault(bad[0], ({"fresh": True, "case": case}, bad[1]))
+            elif len(r["canon"][1]) >= 4:
                 nt.add(driver.case_hash({"fresh": case}))
     return dict(
         evaluations=evaluations, skipped_budget=0, nt=nt, nt_enum=0,
